@@ -24,7 +24,12 @@ func (t *Type) Enum(cfg *enum.Config) *Enum {
 }
 
 func loadEnum(t *types.Named, cfg *enum.Config) *Enum {
-	path := t.Obj().Pkg().Path()
+	pkg := t.Obj().Pkg()
+	if pkg == nil {
+		// universe types like error have no package and cannot be enums
+		return disabled
+	}
+	path := pkg.Path()
 	name := t.Obj().Name()
 
 	if !cfg.Enabled || cfg.Excludes.Matches(path, name) {
